@@ -72,7 +72,8 @@ _memo = {}
 PROBES = [
     (re.compile(r"^serdecap::"), "cbor-bytes", ["9b8000000000000000", "9b0000010000000000", "9a7fffffff"]),
     (re.compile(r"^rpid::.*#(label-boundary|web|android|dns-host)"), "rpid-web",
-     ["@rpid-android:192.168.0.1|-", "@rpid-android:192.168.0.1|0.1", "@rpid-android:app.co.uk:443|co.uk:443", "@rpid-android:user@co.uk|-",
+     ["@rpid-android:%63o.uk|-", "@rpid-android:login.%63o.uk|%63o.uk", "@rpid-android:example.com%2E|-",
+      "@rpid-android:192.168.0.1|-", "@rpid-android:192.168.0.1|0.1", "@rpid-android:app.co.uk:443|co.uk:443", "@rpid-android:user@co.uk|-",
       "@rpid-android:app.example.com/|example.com/", "@rpid-android:app.example.com|example.com", "@rpid-android:evilexample.com|example.com",
       "@rpid-android:attacker.net/.example.com|example.com", "@rpid-android:user:secret@login.example.com|example.com", "@rpid-android:my app.example.com|example.com",
       "https://evilexample.com|example.com|0", "https://evillocalhost|localhost|1", "https://aexample.co.uk|example.co.uk|0",
@@ -99,7 +100,7 @@ def _ad_inputs():
 
     def hdr(fl):
         return h + "%02x" % fl + "01020304"
-    return [h + "0101020304"[:8], hdr(0x02), hdr(0x20), hdr(0x01), hdr(0x04), hdr(0x1d), hdr(0x40), hdr(0x80), hdr(0xc1),
+    return [h + "0101020304"[:8], hdr(0x02), hdr(0x20), hdr(0x01), hdr(0x04), hdr(0x1d), hdr(0x40), hdr(0x80), hdr(0xc1), hdr(0x80) + "00", hdr(0x81) + "f6", hdr(0x81) + "80", 
             hdr(0x41) + aag + "0005" + "0102030405" + cose + "|whole",
             hdr(0x41) + aag + "0100" + "7e" * 256 + cose + "|whole",
             hdr(0x41) + aag + "1388" + "5a" * 5000 + cose + "|whole",
@@ -116,6 +117,7 @@ PROBES.insert(0, (re.compile(r"^ad::AuthenticatorData::(new|set_\w+)::"), "authd
                    for f in (0x00, 0x01, 0x05, 0x40, 0x80, 0xc5)]))
 # the verified table checker says the table and the rule list disagree: the enumeration names a domain that shows it
 PROBES.insert(0, (re.compile(r"^psl::compiled-run"), "psl-enumerate", ["/repo/public-suffix/public_suffix_list.dat"]))
+PROBES.insert(0, (re.compile(r"^dbg::"), "passkey-debug", ["-"]))
 PROBES.insert(0, (re.compile(r"^cosek::"), "cose-der", ["32,32", "31,32", "32,33", "0,32", "32,0", "64,64"]))
 # a getInfo response whose transports list (key 0x09) declares 2^26 elements and ends there: 7 bytes of input
 PROBES.insert(0, (re.compile(r"^serdecap::(PossiblyUnknown|IgnoreUnknown)"), "cbor-get-info-response", ["a1099a04000000"]))
@@ -130,7 +132,7 @@ PROBES.append((re.compile(r"^sto::Option::"), "shipped-store", ["option"]))
 PROBES.append((re.compile(r"^sto::MemoryStore::.*finds-what-matches"), "shipped-store", ["memory-idless"]))
 PROBES.append((re.compile(r"^sto::MemoryStore::"), "shipped-store", ["memory-rp", "memory-idless"]))
 # sender: payload lengths around every packet boundary (and the maximum), every byte non-zero so that stale bytes show
-PROBES.insert(0, (re.compile(r"^hid::Message::(send|to_packets)::"), "hid-roundtrip",
+PROBES.insert(0, (re.compile(r"^hid::Message::(send|to_packets|new)::"), "hid-roundtrip",
                   ["01020304:10:" + "".join("%02x" % (1 + (k * 7) % 250) for k in range(n)) for n in (0, 1, 56, 57, 58, 59, 114, 115, 116, 117, 173, 174, 175, 233, 7608, 7609)]
                   + ["01020304:10:" + "".join("%02x" % (1 + (k * 7) % 250) for k in range(n)) + ":w%d" % w for (n, w) in ((10, 64), (10, 40), (130, 63), (130, 1))]))
 
